@@ -19,7 +19,7 @@ def main():
             if opts.get("sample"):
                 rng = random.Random(opts.get("seed", 0) * 7919 + c["id"])
                 sample = sorted(rng.sample(range(len(uni.specs)), opts["sample"]))
-            return drive_exh.run_case(c, uni, opts["mode"], c.get("layout"), sample)
+            return drive_exh.run_case(c, uni, c.get("mode") or opts["mode"], c.get("layout"), sample)
     else:
         mod = __import__("drive_" + driver)
         fn = lambda c: mod.run_case(c, opts)  # noqa: E731
